@@ -142,6 +142,37 @@ def perturb(model, rng, scale=0.3, skip=("invariant_filters",)):
     return jax.tree_util.tree_map_with_path(f, model, is_leaf=lambda x: x is None)
 
 
+def special_values(model, rng, skip=("invariant_filters",)):
+    """Structured special parameter values ("for every value of the learnable parameters" includes them): per inexact leaf
+    one of {unchanged, a zero row, two identical rows, a zero column, all zeros, exact ones}."""
+    import jax
+    import jax.numpy as jnp
+    import equinox as eqx
+
+    def f(path, leaf):
+        if not eqx.is_inexact_array(leaf) or leaf.ndim == 0:
+            return leaf
+        names = [getattr(p, "name", None) for p in path]
+        if any(n in skip for n in names):
+            return leaf
+        a = np.array(leaf)
+        how = int(rng.integers(6))
+        i = int(rng.integers(a.shape[0]))
+        if how == 1:
+            a[i] = 0
+        elif how == 2 and a.shape[0] >= 2:
+            a[i] = a[(i + 1) % a.shape[0]]
+        elif how == 3 and a.ndim >= 2:
+            a[:, int(rng.integers(a.shape[1]))] = 0
+        elif how == 4:
+            a[...] = 0
+        elif how == 5:
+            a[...] = 1
+        return jnp.asarray(a)
+
+    return jax.tree_util.tree_map_with_path(f, model, is_leaf=lambda x: x is None)
+
+
 def param_leaves(model, only_filters=False):
     import jax
     import equinox as eqx
